@@ -18,6 +18,9 @@ def run(payload):
         try:
             if 'near' in case:
                 s, i, n = case['near']
+                # a request that differs only in the 6th digit has just been served on the same object
+                s_ = [float.fromhex(x) for x in s]; i_ = [float.fromhex(x) for x in i]
+                m.compute_near_field([v * (1 + 3e-6) + 2e-9 for v in s_], [v * (1 - 2e-6) for v in i_], [int(x) for x in n])
                 m.compute_near_field([float.fromhex(x) for x in s],
                                      [float.fromhex(x) for x in i], [int(x) for x in n])
                 c = np.array(m.near_field_coord)
@@ -30,8 +33,12 @@ def run(payload):
                 r['rep_coord'] = [[float(x) for x in mm] for mm in _re.findall(r'FIELD POINT: X =\s*(\S+)\s+Y =\s*(\S+)\s+Z =\s*(\S+)', txt)]
             if 'far' in case:
                 t0, dt, nt, p0, dp, np_ = case['far']
-                zen = Angle(float.fromhex(t0), float.fromhex(dt), int(nt))
-                azi = Angle(float.fromhex(p0), float.fromhex(dp), int(np_))
+                # the Angle objects have served another request before and are then given the values of this one
+                zen = Angle(float.fromhex(t0) + 1.5, float.fromhex(dt) * 2, int(nt) + 1)
+                azi = Angle(float.fromhex(p0) - 3.0, float.fromhex(dp) + 1.0, max(1, int(np_) - 1))
+                m.compute_far_field(zen, azi)
+                zen.initial, zen.inc, zen.number = float.fromhex(t0), float.fromhex(dt), int(nt)
+                azi.initial, azi.inc, azi.number = float.fromhex(p0), float.fromhex(dp), int(np_)
                 m.compute_far_field(zen, azi)
                 r['zen'] = [hx(v) for v in m.far_field.zen.flat]
                 r['azi'] = [hx(v) for v in m.far_field.azi.flat]
